@@ -143,3 +143,40 @@ def check_partial_sums(ctx, f, func_node, rule):
                           f"`{a}` is accumulated by the inner loop and folded into `{norm(folded.target)}` at the end of each outer iteration, "
                           f"but it is not re-initialised inside the outer loop: earlier iterations are counted again")
     return n_inst
+
+
+def check_matrix_scalar(ctx, rule):
+    """NAryMatrixRelation.get_value_for_assignment hands out Python numbers (<table>.item()), never numpy scalars"""
+    repo = ctx.repo
+    # values leave the table as Python numbers: arithmetic on numpy scalars of a narrow dtype wraps around silently
+    gv = repo.func("pydcop.dcop.relations", "NAryMatrixRelation.get_value_for_assignment")
+    ctx.touch(gv)
+    ffg = FuncFacts(gv.node)
+    n_ret = 0
+    for r_ in ast.walk(gv.node):
+        if isinstance(r_, ast.Return) and r_.value is not None:
+            fs = {norm(t) for t, p_ in facts_at(ffg, r_) if p_}
+            if any(t.startswith("isinstance(") and ("list" in t or "dict" in t) for t in fs):
+                n_ret += 1
+                v = r_.value
+                ok = isinstance(v, ast.Call) and isinstance(v.func, ast.Attribute) and v.func.attr == "item" and norm(v.func.value).endswith("._m") and not v.args
+                ctx.check(ok, rule, "the looked-up value is converted with .item()", gv, r_,
+                          "join adds the values of its two operands: with numpy scalars the sum is computed in the tables' fixed-width dtype (int8 100+100 = -56)")
+    ctx.check(n_ret >= 2, rule, "list and dict forms both return the cell value", gv, gv.node, "")
+
+
+def check_fao_ties(ctx, rule):
+    """find_arg_optimal (used by projection, DPOP, the best-response helpers): ties by exact equality append, strict improvements restart, list starts empty"""
+    repo = ctx.repo
+    fao = repo.func("pydcop.dcop.relations", "find_arg_optimal")
+    ctx.touch(fao)
+    _loops = domain_loops(fao, fao.params[0])
+    _accs = {cf.acc for cf in M.accumulator_compares(fao)}
+    if len(_loops) == 1 and len(_accs) == 1:
+        _acc = next(iter(_accs))
+        _lists = {norm(c.func.value) for c in ast.walk(_loops[0]) if isinstance(c, ast.Call) and isinstance(c.func, ast.Attribute) and c.func.attr == "append"}
+        _ln = next(iter(_lists)) if len(_lists) == 1 else "var_val"
+        check_arg_list_update(ctx, fao, rule, _loops[0], _ln, _acc)
+        check_list_starts_empty(ctx, fao, rule, _ln, _loops[0])
+    else:
+        ctx.bad(rule, "find_arg_optimal: domain loop with one running optimum", fao, fao.node, "")
